@@ -195,10 +195,7 @@ theorem caller_keeps (pick : Pick) (s : State) (a : Act) (hq : ∀ pw, a ≠ .ru
   | ack ok => exact absurd rfl (ha ok)
   | shutdown => exact ⟨Keeps.fields rfl rfl rfl rfl, Quiet.ofLog [] (by simp [step]) (by simp) (by simp) rfl rfl rfl rfl⟩
   | env op =>
-    show Keeps s (if opPeer op == s.peer then s else (s.allocStep pick op).1) ∧ Quiet s (if opPeer op == s.peer then s else (s.allocStep pick op).1)
-    split
-    · exact ⟨Keeps.refl s, Quiet.refl s⟩
-    · exact ⟨allocStep_keeps pick s op, allocStep_quiet pick s op⟩
+    exact ⟨allocStep_keeps pick s op, allocStep_quiet pick s op⟩
 
 /-- a caller's step keeps `LiveP` and the variant -/
 theorem caller_live (pick : Pick) {t : Nat} {s : State} (h : LiveP t s) (a : Act) (hq : ∀ pw, a ≠ .run pw) (ha : ∀ ok, a ≠ .ack ok) :
